@@ -1183,7 +1183,7 @@ class Engine:
                 k += 1
             rest = idx_nodes[k:]
             if any(not (isinstance(n, ast.Slice) and n.lower is None and n.upper is None and n.step is None) for n in rest):
-                raise OutsideSubset("partial slice store")
+                return self.slice_store(base, arr, idx_nodes, v, st, t)
             if k == arr.rank:
                 if k != len(idx_nodes):
                     raise OutsideSubset("store rank")
@@ -1211,6 +1211,51 @@ class Engine:
         if isinstance(t, ast.Attribute):
             raise OutsideSubset("attribute store")
         raise OutsideSubset("assign target")
+
+    def slice_store(self, base, arr, idx_nodes, v, st, t):
+        """general basic-slice store  a[lo:hi, j] = value  (unit steps; value a scalar or an array whose rank is the number
+        of slices): the new contents are a fresh array defined pointwise -- inside the addressed block the stored value,
+        elsewhere the old contents"""
+        specs = []
+        for k, n in enumerate(idx_nodes):
+            if isinstance(n, ast.Slice):
+                if n.step is not None and self.ev(n.step, st) != 1:
+                    raise OutsideSubset("slice step in store")
+                lo = to_int_strict(self.ev(n.lower, st)) if n.lower is not None else z3.IntVal(0)
+                hi = to_int_strict(self.ev(n.upper, st)) if n.upper is not None else toz(arr.shape[k])
+                self.emit("slice:%s@%s" % (_nm(t.value), self.cur_line), st, z3.And(lo >= 0, hi <= toz(arr.shape[k])), "index")
+                specs.append(("s", lo, hi))
+            else:
+                specs.append(("i", self.norm_index(self.ev(n, st), arr.shape[k], st, _nm(t.value))))
+        for k in range(len(idx_nodes), arr.rank):
+            specs.append(("s", z3.IntVal(0), toz(arr.shape[k])))
+        idx = [self.fresh("i", I) for _ in range(arr.rank)]
+        inside, src_idx = [], []
+        for sp, i in zip(specs, idx):
+            if sp[0] == "s":
+                inside.append(z3.And(i >= sp[1], i < sp[2]))
+                src_idx.append(z3.simplify(i - sp[1]))
+            else:
+                inside.append(i == sp[1])
+        if isinstance(v, (Ref, Arr)):
+            src = self.deref(v, st)
+            if src.rank != len(src_idx):
+                raise OutsideSubset("slice store: rank of the stored array")
+            k2 = 0
+            for sp in specs:
+                if sp[0] == "s":
+                    n = z3.If(sp[2] - sp[1] >= 0, sp[2] - sp[1], z3.IntVal(0))
+                    self.emit("shape-eq@%s" % self.cur_line, st, toz(src.shape[k2]) == n, "shape")
+                    k2 += 1
+            val = self.select(src, src_idx)
+            if src.elem == "complex":
+                val = cpx_unpack(val)
+        else:
+            val = v
+        new = Arr(self.fresh("sstore", arr_sort(arr.elem, arr.rank)), arr.shape, arr.elem)
+        nsel = self.select(new, idx)
+        st.pc.append(forall_pat(idx, nsel == z3.If(z3.And(inside), self.elem_coerce(val, arr.elem), self.select(arr, idx)), [nsel]))
+        st.heap[base.id] = new
 
     def elem_coerce(self, v, elem):
         if elem == "complex":
